@@ -232,7 +232,7 @@ func buildC18Doc(seed uint64, feats map[string]int) *document.Document {
 				}
 				return append(runs, document.Run{Text: document.Text{Content: text[prev:], Space: "preserve"}, Properties: c18Format(r)})
 			}
-			texts := [3][3]string{{"Name {{v0}}", "Qty", "Note {{missing}}"}, {"{{#each items}}{{name}}", "n={{qty}}", "{{note}}{{/each}}"}, {"Total {{v1}}", "", "end"}}
+			texts := [3][3]string{{"Name {{v0}}", "Qty", "Note {{missing}}"}, {"{{#each items}}{{name}}", "n={{qty}} {{v1}}", "{{note}}{{/each}}"}, {"Total {{v1}}", "", "end"}}
 			for i := 0; i < 3; i++ {
 				for j := 0; j < 3; j++ {
 					t.Rows[i].Cells[j].Paragraphs = []document.Paragraph{{Runs: cut(texts[i][j])}}
@@ -293,11 +293,21 @@ func c18Data(r *rng) (*document.TemplateData, map[string]string, map[string]bool
 				it["note"] = c18Values[r.intn(len(c18Values))]
 				gi["note"] = it["note"]
 			}
+			if r.chance(30) {
+				// a field with the name of a global variable: it stands for the global in this row only
+				it["v1"] = "item-v1-" + fmt.Sprint(i)
+				gi["v1"] = it["v1"]
+			}
 			items = append(items, it)
 			gl = append(gl, gi)
 		}
 		lists["items"] = items
 		td.SetList("items", gl)
+	}
+	if r.chance(30) {
+		// a global variable with the name of an item field: rows whose item has no such field show the global
+		vals["note"] = "global note"
+		td.SetVariable("note", "global note")
 	}
 	for k := 0; k < 4; k++ {
 		if r.chance(75) {
